@@ -159,8 +159,16 @@ def build(case):
             d = pl.center - pts[k]
             perp = np.array([-d[1], d[0]])
             shift = np.round(pts[k] - p[pl.vertices[k]])
+            def inside(q):          # strictly inside the convex polygon pts (anticlockwise), with a margin
+                nxt = np.roll(pts, -1, axis=0)
+                return bool(np.all((nxt[:, 0] - pts[:, 0]) * (q[1] - pts[:, 1]) - (nxt[:, 1] - pts[:, 1]) * (q[0] - pts[:, 0]) > 1e-6))
+            w = 0.08
+            while w > 0.005 and not (inside(pts[k] + 0.3 * d + w * perp) and inside(pts[k] + 0.3 * d - w * perp)):
+                w /= 2                # thin wedge at this corner: make the triangle narrower
+            if w <= 0.005:
+                continue
             ids = []
-            for q in (pts[k] + 0.3 * d + 0.08 * perp, pts[k] + 0.3 * d - 0.08 * perp):
+            for q in (pts[k] + 0.3 * d + w * perp, pts[k] + 0.3 * d - w * perp):
                 q = q - shift
                 n = np.floor(q)
                 newp.append(q - n)
